@@ -1,6 +1,7 @@
 import Pose.Wire
 import Pose.Driver.Lie
 import Pose.Model.ExpGlue
+import Pose.Model.ExpBatch
 /-! Driver ops for C01: `Exp` of an algebra element followed by `tensor()` and `matrix()` in one reply
 (storage of the group element, then the matrix row-major), so the transcendentals are evaluated once. -/
 namespace PP.Driver
@@ -9,7 +10,7 @@ open PP Wire
 /-- `c01.glue <ltype> <dtype> <rank> <shape…> <data…>`: the public path `pp.Exp(pp.LieTensor(data, ltype))` followed by
 `.tensor()` and `.matrix()` with the model's own dispatch, shape handling and dtype-dependent eps.
 reply `ok <ltype> <rank> <shape…> <n> <data…> <mrank> <mshape…> <m> <mdata…>` or `err lastDim|noExp|numel` -/
-def glueHandler : Handler := fun ts =>
+def glueHandlerOf (plain : Bool) : Handler := fun ts =>
   match ts with
   | ltn :: dtn :: rk :: rest => do
     let lt ← (LType.ofName ltn).elim (.error "ltype") .ok
@@ -18,7 +19,7 @@ def glueHandler : Handler := fun ts =>
     let (shp, dat) ← take r rest
     let shape ← nats shp
     let data ← nums dat
-    match ppExp (α := B) lt dt shape data with
+    match (if plain then typeExp (α := B) lt dt shape data else ppExp (α := B) lt dt shape data) with
     | .error e => .error e.name
     | .ok X =>
       let (ms, md) := X.matrix dt
@@ -27,7 +28,22 @@ def glueHandler : Handler := fun ts =>
   | _ => .error "arity"
 
 def opsC01 : List (String × Handler) := [
-  ("c01.glue", glueHandler),
+  ("c01.glue", glueHandlerOf false),
+  -- the plain-Tensor branch of `<lt>_type.Exp(x)`
+  ("c01.glueplain", glueHandlerOf true),
+  -- batch-level models with the code's masked scatter: `c01.so3scatter eps x…(3n)` -> quaternions (4n);
+  -- `c01.wsscatter eps (φ σ)…(4n)` -> the coupling matrices W = A K + B K² + C (9n) from the scattered coefficients
+  ("c01.so3scatter", numeric fun xs => match xs with
+    | e :: rest =>
+      let rows := (List.range (rest.length / 3)).map fun i => v3 rest (3 * i)
+      .ok ((so3ExpBatch e rows).flatMap Quat.toList)
+    | [] => .error "arity"),
+  ("c01.wsscatter", numeric fun xs => match xs with
+    | e :: rest =>
+      let rows := (List.range (rest.length / 4)).map fun i => torx rest (4 * i)
+      let cs := wsCoefBatch e (rows.map fun r => (r.phi.norm, r.sigma))
+      .ok ((List.zipWith (fun r c => (polyK c.2.2 c.1 c.2.1 r.phi).toList) rows cs).flatten)
+    | [] => .error "arity"),
   ("c01.so3", withEps 3 fun e l => let X := so3Exp e (v3 l); X.toList ++ (SO3matrix X).toList),
   ("c01.se3", withEps 6 fun e l => let X := se3Exp e (tose3 l); X.toList ++ (SE3matrix X).flat),
   ("c01.rxso3", withEps 4 fun e l => let X := rxso3Exp e (torx l); X.toList ++ (RxSO3matrix X).flat),
